@@ -239,6 +239,14 @@ func c04Constructed(r *Run) {
 		isHelper = true
 		external = nil
 		withRaw = false // the producer discards caller-supplied raw protected bytes
+		if t.Bool(1, 2, "c04.env.staleraw") {
+			// ... so ANY raw bytes are legal here, e.g. those of an earlier
+			// envelope made under another algorithm whose decoded Headers the
+			// caller re-uses after changing the parsed alg
+			stale := []int64{-7, -8, -35, -37}[t.Choose(4, "c04.env.stalealg")]
+			h.RawProtected = refcbor.Encode(refcbor.Bstr(refcbor.Encode(refcbor.Map(refcbor.Int(1), refcbor.Int(stale), refcbor.Int(258), refcbor.Int(-16)))))
+			r.Probe("envelope-with-stale-raw-protected")
+		}
 		hp := cose.HashEnvelopePayload{HashAlgorithm: cose.AlgorithmSHA256, HashValue: t.Bytes(32, "env.digest")}
 		r.Lib(func() { helperOut, signErr = cose.SignHashEnvelope(ent, spy, h, hp) })
 	}
